@@ -34,6 +34,11 @@ pub enum Op {
     ChildLocal { slot: u32, name: String, props: Props },
     /// `Span::noop()` into a slot
     Noop { slot: u32 },
+    /// `Span::root(name, SpanContext::from_span(of))`, optionally through the traceparent codec;
+    /// a no-op span when there is no context
+    RootFromSpan { slot: u32, name: String, of: u32, w3c: bool },
+    /// `Span::root(name, SpanContext::current_local_parent())`
+    RootFromLocal { slot: u32, name: String, w3c: bool },
     AddProps { slot: u32, props: Props },
     AddEvent { slot: u32, name: String, props: Props },
     Cancel { slot: u32 },
@@ -167,6 +172,8 @@ impl Op {
             }
             Op::ChildLocal { slot, name, props } => format!("lchild#{slot}:{name}{}", ps(props)),
             Op::Noop { slot } => format!("noop#{slot}"),
+            Op::RootFromSpan { slot, name, of, w3c } => format!("remote#{slot}:{name}<ctx(#{of}){}>", if *w3c { ",w3c" } else { "" }),
+            Op::RootFromLocal { slot, name, w3c } => format!("remote#{slot}:{name}<lctx{}>", if *w3c { ",w3c" } else { "" }),
             Op::AddProps { slot, props } => format!("prop#{slot}{}", ps(props)),
             Op::AddEvent { slot, name, props } => format!("event#{slot}:{name}{}", ps(props)),
             Op::Cancel { slot } => format!("cancel#{slot}"),
